@@ -101,6 +101,7 @@ Definition set_c_cache (c : cu_obj) (m : list Z) (l : list nat) : cu_obj :=
 
 Record lp_obj := mk_lp {
   l_raw : lp_raw;
+  l_cu : Z;                           (* the unit whose structs the program was created with *)
   l_start : Z;                        (* program_start_offset *)
   l_files : Z;                        (* len(self.header.file_entry) NOW *)
   l_entries : option Z                (* _decoded_entries *)
